@@ -400,7 +400,7 @@ def compressibility_combined_func(
             pvt["Rv"](pressure + 0.5) * Sg / pvt["Bg"](pressure + 0.5)
             + So / pvt["Bo"](pressure + 0.5)
             - pvt["Rv"](pressure - 0.5) * Sg / pvt["Bg"](pressure - 0.5)
-            + So / pvt["Bo"](pressure - 0.5)
+            - So / pvt["Bo"](pressure - 0.5)
         )
     )
     gas_cp = (
@@ -410,7 +410,7 @@ def compressibility_combined_func(
             pvt["Rs"](pressure + 0.5) * So / pvt["Bo"](pressure + 0.5)
             + Sg / pvt["Bg"](pressure + 0.5)
             - pvt["Rs"](pressure - 0.5) * So / pvt["Bo"](pressure - 0.5)
-            + Sg / pvt["Bg"](pressure - 0.5)
+            - Sg / pvt["Bg"](pressure - 0.5)
         )
     )
     water_cp = (
